@@ -445,6 +445,58 @@ impl Image {
             val: crate::util::rle_decompress(r.bytes()),
         }
     }
+    /// compact form relative to a base image: per file the new length and the 64-byte blocks that
+    /// differ from the base (bytes beyond the base count as zeros). Exact: unpack_delta(pack_delta(x)) = x.
+    /// Images that share large untouched parts with the start image (seeded fillers) stay small.
+    pub fn pack_delta(&self, base: &Image) -> Vec<u8> {
+        fn one(b: &mut Buf, new: &[u8], base: &[u8]) {
+            const BLK: usize = 64;
+            b.u64(new.len() as u64);
+            let mut chunks: Vec<(usize, usize)> = Vec::new();
+            let mut i = 0;
+            while i < new.len() {
+                let hi = (i + BLK).min(new.len());
+                let same = if hi <= base.len() { new[i..hi] == base[i..hi] } else { new[i..hi].iter().enumerate().all(|(j, x)| *x == base.get(i + j).copied().unwrap_or(0)) };
+                if !same {
+                    match chunks.last_mut() {
+                        Some(last) if last.1 == i => last.1 = hi,
+                        _ => chunks.push((i, hi)),
+                    }
+                }
+                i = hi;
+            }
+            b.u32(chunks.len() as u32);
+            for (lo, hi) in chunks {
+                b.u64(lo as u64);
+                b.bytes(&new[lo..hi]);
+            }
+        }
+        let mut b = Buf::new();
+        one(&mut b, &self.htx, &base.htx);
+        one(&mut b, &self.key, &base.key);
+        one(&mut b, &self.val, &base.val);
+        b.0
+    }
+    pub fn unpack_delta(p: &[u8], base: &Image) -> Image {
+        fn one(r: &mut Rd, base: &[u8]) -> Vec<u8> {
+            let len = r.u64() as usize;
+            let mut out = vec![0u8; len];
+            let n = len.min(base.len());
+            out[..n].copy_from_slice(&base[..n]);
+            let c = r.u32();
+            for _ in 0..c {
+                let lo = r.u64() as usize;
+                let bytes = r.bytes();
+                out[lo..lo + bytes.len()].copy_from_slice(bytes);
+            }
+            out
+        }
+        let mut r = Rd::new(p);
+        let htx = one(&mut r, &base.htx);
+        let key = one(&mut r, &base.key);
+        let val = one(&mut r, &base.val);
+        Image { htx, key, val }
+    }
     pub fn sizes(&self) -> (usize, usize, usize) {
         (self.htx.len(), self.key.len(), self.val.len())
     }
